@@ -69,6 +69,10 @@ pub struct Cfg {
     /// over classes that runs in hash order shows
     #[serde(default)]
     pub real_weights: bool,
+    /// degenerate data: 2..=4 distinct rows, each repeated (tie-free / multi-class / default trees and the
+    /// generic naive-Bayes classes)
+    #[serde(default)]
+    pub few_distinct: bool,
 }
 
 /// canonical JSON: object keys sorted (HashMap-backed models are compared by content)
@@ -183,6 +187,14 @@ impl Cfg {
             _ => 2,
         };
         let mut x = eighths(self.data_seed, self.n, self.p);
+        if self.few_distinct && self.kind != Kind::TreeTwoClassTies {
+            let d = 2 + (self.data_seed % 3) as usize;
+            let base = x.clone();
+            for i in 0..self.n {
+                let src = base.row(i % d).to_owned();
+                x.row_mut(i).assign(&src);
+            }
+        }
         // corner: the last column repeats the first one (every split on one has an equally good twin)
         if self.dup_column && self.p >= 2 {
             let c0 = x.column(0).to_owned();
@@ -301,7 +313,11 @@ impl Cfg {
             let x = Array2::from_shape_fn((rows.len(), p), |(i, j)| rows[i][j]);
             (x, Array1::from(labels), data::gaussian(self.data_seed ^ 9, 40, p), Array2::<f64>::zeros((3, p)))
         } else {
-            let x = data::gaussian(self.data_seed, self.n, p);
+            let x = if self.few_distinct {
+                data::few_distinct(self.data_seed, self.n, p, 2 + (self.data_seed % 3) as usize)
+            } else {
+                data::gaussian(self.data_seed, self.n, p)
+            };
             let y = data::labels_distinct_sizes(&x, self.data_seed, self.classes.clamp(2, 5));
             (x, y, data::gaussian(self.data_seed ^ 9, 40, p), Array2::<f64>::zeros((0, p)))
         };
@@ -392,6 +408,14 @@ impl Cfg {
             // generic class: no all-zero row, pairwise distinct class sizes (hence distinct priors), so
             // two classes can only tie through an exact coincidence of sums of logarithms
             let mut x = data::counts(self.data_seed, self.n, p, 6);
+            if self.few_distinct {
+                let d = 2 + (self.data_seed % 3) as usize;
+                let base = x.clone();
+                for i in 0..self.n {
+                    let src = base.row(i % d).to_owned();
+                    x.row_mut(i).assign(&src);
+                }
+            }
             for mut r in x.rows_mut() {
                 r[0] += 1.0;
             }
@@ -488,6 +512,14 @@ impl Runnable for Cfg {
             Kind::MultinomialNbNearTies => "multinomial_nb_near_tied_posteriors",
         });
         obs.class_if(self.kind == Kind::GaussianNb && self.batches > 1, "gaussian_nb_incremental");
+        obs.class_if(
+            self.few_distinct
+                && matches!(
+                    self.kind,
+                    Kind::TreeTwoClassTieFree | Kind::TreeMultiClass | Kind::TreeDefaults | Kind::GaussianNb | Kind::MultinomialNb
+                ),
+            "degenerate_few_distinct_rows",
+        );
         if self.is_tree() {
             obs.class_if(self.entropy && self.kind != Kind::TreeDefaults, "tree_entropy");
             obs.class_if(self.dup_column && self.p >= 2, "tree_duplicate_feature_column");
@@ -538,9 +570,9 @@ pub fn strategy(tier: Tier) -> impl Strategy<Value = Cfg> {
     ];
     (
         (kind, any::<u64>(), 12usize..=max_n, 1usize..=5, 2usize..=5),
-        (any::<bool>(), 0usize..=6, 1u8..=6, 1u8..=3, 1usize..=3, proptest::bool::weighted(0.3), proptest::bool::weighted(0.5)),
+        (any::<bool>(), 0usize..=6, 1u8..=6, 1u8..=3, 1usize..=3, proptest::bool::weighted(0.3), proptest::bool::weighted(0.5), proptest::bool::weighted(0.12)),
     )
-        .prop_map(|((kind, data_seed, n, p, classes), (entropy, max_depth, min_weight_split, min_weight_leaf, batches, dup_column, real_weights))| Cfg {
+        .prop_map(|((kind, data_seed, n, p, classes), (entropy, max_depth, min_weight_split, min_weight_leaf, batches, dup_column, real_weights, few_distinct))| Cfg {
             kind,
             data_seed,
             n,
@@ -553,5 +585,6 @@ pub fn strategy(tier: Tier) -> impl Strategy<Value = Cfg> {
             batches,
             dup_column,
             real_weights,
+            few_distinct,
         })
 }
